@@ -226,6 +226,21 @@ def rows_for(img, B, b, n):
         st.pc.append(le(0, J))
         st.pc.append(lt(J, Lb - 1))
         img.byte_is(st, lin(2) + J, Lin.atom(("byte", bs.base, (bs.start + J).key())), "bit string bytes")
+        # the last string byte keeps its leading 8 - ignored bits; the ignored ones are padding bits, zero (RFC 4585 §6.3.3.2)
+        last = Lin.atom(("byte", bs.base, (bs.start + Lb - 1).key()))
+        lbits = BL.to_bits(last, 8)
+        covered = []
+        for c in range(0, 9):
+            sc = s.clone()
+            sc.pc.append(ge(Lb, 1))
+            sc.pc.append(eq(ov, c))
+            if not solver.feasible(sc.pc):
+                continue
+            covered.append(flit(eq(ov, c)))
+            expect = BL.from_bits([0] * c + list(lbits[c:])) if c < 8 else lin(0)
+            img.byte_is(sc, lin(1) + Lb, expect, f"last string byte with its {c} ignored bit(s) cleared")
+        img.res.compare(solver.entails(s.pc, f_or(flit(eq(Lb, 0)), *covered)) if covered else solver.entails(s.pc, flit(eq(Lb, 0))), "layout-row", B.wr,
+                        "RpsiBuilder: the ignored-bit count of an accepted non-empty string is one of the cases 0..8 checked", pc=s.pc)
         img.zero_row(lin(2) + Lb, n, "zero fill to 32 bits")
         return True
     if name == "PliBuilder":
